@@ -734,6 +734,27 @@ func (fc *funcConverter) convertBlock(astFunc *AstFunc, ssaBlock *ssa.BasicBlock
 				idxName := fc.tupleVarName(instr.Iter, 0)
 				iterValName := fc.tupleVarName(instr.Iter, 1)
 
+				// Like the language, the key is the byte offset of each rune, and the
+				// runes are decoded from UTF-8, which a nested range statement does for us:
+				//
+				//	ok = idx < len(str)
+				//	if ok {
+				//		key = idx
+				//		size := 0
+				//		for i, r := range str[idx:] {
+				//			if i > 0 {
+				//				size = i
+				//				break
+				//			}
+				//			val = r
+				//		}
+				//		if size == 0 {
+				//			size = len(str) - idx
+				//		}
+				//		idx += size
+				//	}
+				sizeName := fc.namePrefix + "size"
+				offsetName, runeName := fc.namePrefix+"i", fc.namePrefix+"r"
 				stmt = ah.BlockStmt(
 					ah.AssignStmt(ast.NewIdent(okName), &ast.BinaryExpr{
 						X:  ast.NewIdent(idxName),
@@ -743,12 +764,37 @@ func (fc *funcConverter) convertBlock(astFunc *AstFunc, ssaBlock *ssa.BasicBlock
 					&ast.IfStmt{
 						Cond: ast.NewIdent(okName),
 						Body: ah.BlockStmt(
-							&ast.AssignStmt{
-								Lhs: []ast.Expr{ast.NewIdent(keyName), ast.NewIdent(valName)},
-								Tok: token.ASSIGN,
-								Rhs: []ast.Expr{ast.NewIdent(idxName), ah.IndexExprByExpr(ast.NewIdent(iterValName), ast.NewIdent(idxName))},
+							ah.AssignStmt(ast.NewIdent(keyName), ast.NewIdent(idxName)),
+							ah.AssignDefineStmt(ast.NewIdent(sizeName), ah.IntLit(0)),
+							&ast.RangeStmt{
+								Key:   ast.NewIdent(offsetName),
+								Value: ast.NewIdent(runeName),
+								Tok:   token.DEFINE,
+								X:     &ast.SliceExpr{X: ast.NewIdent(iterValName), Low: ast.NewIdent(idxName)},
+								Body: ah.BlockStmt(
+									&ast.IfStmt{
+										Cond: &ast.BinaryExpr{X: ast.NewIdent(offsetName), Op: token.GTR, Y: ah.IntLit(0)},
+										Body: ah.BlockStmt(
+											ah.AssignStmt(ast.NewIdent(sizeName), ast.NewIdent(offsetName)),
+											&ast.BranchStmt{Tok: token.BREAK},
+										),
+									},
+									ah.AssignStmt(ast.NewIdent(valName), ast.NewIdent(runeName)),
+								),
 							},
-							&ast.IncDecStmt{X: ast.NewIdent(idxName), Tok: token.INC},
+							&ast.IfStmt{
+								Cond: &ast.BinaryExpr{X: ast.NewIdent(sizeName), Op: token.EQL, Y: ah.IntLit(0)},
+								Body: ah.BlockStmt(ah.AssignStmt(ast.NewIdent(sizeName), &ast.BinaryExpr{
+									X:  ah.CallExprByName("len", ast.NewIdent(iterValName)),
+									Op: token.SUB,
+									Y:  ast.NewIdent(idxName),
+								})),
+							},
+							&ast.AssignStmt{
+								Lhs: []ast.Expr{ast.NewIdent(idxName)},
+								Tok: token.ADD_ASSIGN,
+								Rhs: []ast.Expr{ast.NewIdent(sizeName)},
+							},
 						),
 					},
 				)
@@ -781,15 +827,16 @@ func (fc *funcConverter) convertBlock(astFunc *AstFunc, ssaBlock *ssa.BasicBlock
 				idxName := fc.tupleVarName(instr, 0)
 				valName := fc.tupleVarName(instr, 1)
 
+				// Keep the string and a byte offset into it; see the *ssa.Next case.
 				astFunc.Vars[idxName] = types.Typ[types.Int]
-				astFunc.Vars[valName] = types.NewSlice(types.Typ[types.Rune])
+				astFunc.Vars[valName] = types.Typ[types.String]
 
 				stmt = &ast.AssignStmt{
 					Lhs: []ast.Expr{ast.NewIdent(idxName), ast.NewIdent(valName)},
 					Tok: token.ASSIGN,
 					Rhs: []ast.Expr{
 						ah.IntLit(0),
-						ah.CallExpr(&ast.ArrayType{Elt: ast.NewIdent("rune")}, xExpr),
+						ah.CallExprByName("string", xExpr),
 					},
 				}
 			} else {
